@@ -13,12 +13,16 @@ Bad     == {[i |-> i, fields |-> BadFields(Obs[i]), exp |-> Proj(Obs[i].rec, Obs
                 i \in {j \in 1..Len(Obs) : BadFields(Obs[j]) # {}}}
 BadFuzz == {i \in 1..Len(Fuzz) : BadOutcome(Fuzz[i].outcome)}
 
+SeqObs == ndJsonDeserialize(IOEnv.SEQ_TRACE_FILE)
+BadSeq == {[n |-> n, items |-> BadItems(SeqObs[n])] : n \in {m \in 1..Len(SeqObs) : BadItems(SeqObs[m]) # {}}}
+
 ClassesSeen  == {Fuzz[i].class : i \in 1..Len(Fuzz)}
 ClassesMissing == CorruptionClasses \ ClassesSeen
 ClassesUnknown == ClassesSeen \ CorruptionClasses
 
 ASSUME ndJsonSerialize(IOEnv.VERDICT_FILE, <<[n |-> Len(Obs), bad |-> Bad, nfuzz |-> Len(Fuzz), badfuzz |-> BadFuzz,
-                                              missing |-> ClassesMissing, unknown |-> ClassesUnknown]>>)
+                                              missing |-> ClassesMissing, unknown |-> ClassesUnknown,
+                                              nseq |-> Len(SeqObs), badseq |-> BadSeq]>>)
 
 VARIABLE x
 Init == x = 0
